@@ -112,6 +112,18 @@ class Panic:
     __slots__ = ('msg',)
     def __init__(s, msg): s.msg = msg
 
+_STRLIKE = re.compile(r"^(?:str|String|std::string::String|\[u8\]|KebabStr|KebabString)$")
+def norm_lazy(v):
+    """Lazy objects denote values, never references: a lazily instantiated place of type `&T` becomes Ref(lazy value of type T).
+    (string-like referents are exempt: `&str` and `str` are the same fat value in this model)"""
+    if isinstance(v, Lazy) and v.ty:
+        t = v.ty.strip()
+        if t.startswith('&'):
+            inner = re.sub(r"^&(?:'\w+ )?(?:mut )?", '', t)
+            if not _STRLIKE.match(inner.strip()):
+                return Ref(v.kid('*', inner), ())
+    return v
+
 def bv64(n): return BitVecVal(n, 64)
 def conc(t):
     """python int of a concrete BV term or None"""
@@ -435,7 +447,7 @@ class Engine:
         if isinstance(v, Lazy) and v.ty is None:
             t = place_type(fr.fn, pl)
             if t is not None: v.ty = t
-        return s.finish(v)
+        return s.finish(norm_lazy(v))
     def store(s, st, fr, pl, val):
         b, p = s.locate(st, fr, pl)
         if not isinstance(b, int):
@@ -489,6 +501,10 @@ class Engine:
             w = WIDTH[m.group(1)]; sg = m.group(1) in SIGNED
             if m.group(2) == 'MAX': return BitVecVal((1 << (w - 1)) - 1 if sg else (1 << w) - 1, w)
             return BitVecVal(-(1 << (w - 1)) if sg else 0, w)
+        if c.startswith('ZeroSized: '):
+            z = c[len('ZeroSized: '):].strip()
+            if z.startswith('{closure@'): return Closure(z, ())
+            return FnItem(z)
         if c.endswith(']') and 'promoted[' in c: return s.promoted(st, c)
         # unit variant / unit struct / fn item
         r = s.adt(c, (), 'unit', st, fr, as_const=True)
@@ -553,7 +569,12 @@ class Engine:
         k = rv[0]
         if k == 'use': return s.operand(st, fr, rv[1])
         if k == 'ref':
-            b, p = s.locate(st, fr, parse_place(rv[2])); return Ref(b, p)
+            pl = parse_place(rv[2]); b, p = s.locate(st, fr, pl)
+            if isinstance(b, Lazy):
+                v = b
+                for step in p: v = s.nav(v, step)
+                if isinstance(v, Lazy) and v.ty is None: v.ty = place_type(fr.fn, pl)
+            return Ref(b, p)
         if k == 'discriminant':
             v = s.load(st, fr, parse_place(rv[1]))
             if isinstance(v, (Enum, Lazy)): return v.disc
